@@ -237,6 +237,11 @@ def gen_cases(rng, tier):
           ("M:q:BYE:BYE:2:old1:x:f:h1:h2!z9hG4bKa,M:q:BYE:BYE:2:z9hG4bKa:x:f:h2:h1!old1,M:q:BYE:BYE:2:old1:x:f:h1")]
     for i, evs in enumerate(pv):
         cases.append(["pv%d" % i, "c04", evs])
+    # any number of copies of a request nobody has answered yet: each is absorbed by the transaction that holds the first (the
+    # application may take its time - the client's timer E sends ten copies in 32 s)
+    for i, (m, br, n) in enumerate((("OPTIONS", "z9hG4bKa", 9), ("OPTIONS", "z9hG4bKa", 12), ("INVITE", "z9hG4bKb", 12), ("BYE", "old1", 11), ("OPTIONS", "-", 10))):
+        one = "M:q:%s:%s:1:%s:x:f:h1" % (m, m, br)
+        cases.append(["rt%d" % i, "c04", ",".join([one] * (n + 1) + ["M:q:OPTIONS:OPTIONS:2:z9hG4bKother:y:g:h2"])])
     return cases
 
 
